@@ -135,8 +135,73 @@ theorem interp_within_global_range (l : List (Sample K m)) (h2 : 2 ≤ l.length)
     · rename_i h; rwa [max_eq_right h] at hmax
     · rename_i h; rwa [max_eq_left (le_of_lt (not_le.1 h))] at hmax
 
+/-- `apply_resample_and_delay` equals its column-wise reference as a whole function: same exceptions, same
+    target times, same data (the dict grouping versus one group per column). -/
+theorem applyResampleAndDelay_eq_columnwise [BEq K] [LawfulBEq K] (s : TS K m) (nt : List K) (dflt : K)
+    (sd : List (String × K)) (pred : Bool) :
+    applyResampleAndDelay s nt dflt sd pred = applyResampleAndDelayColumnwise s nt dflt sd pred := by
+  unfold applyResampleAndDelay applyResampleAndDelayColumnwise resampleAndDelayWith checked
+  split
+  · rename_i hl
+    split
+    · cases hb : buildDelays s.mapping dflt sd pred with
+      | error e => rfl
+      | ok delays =>
+        simp only [strictInc_shift, groupByDelay_eq_columnwise]
+        cases hinc : strictInc nt with
+        | true => simp
+        | false => simp
+    · rfl
+  · rfl
+
+/-- A zero delay leaves the series unchanged (`apply_delay` with `delay = 0`). -/
+theorem applyDelay_zero_id (s : TS K m) (h2 : 2 ≤ s.samples.length) (hs : Sorted s.samples)
+    (name : String) (idx : List Nat) (hname : lookup s.mapping name = some idx)
+    (cols : List (Fin m)) (hidx : toFin m idx = some cols) :
+    applyDelay s name 0 = .ok s := by
+  have hl : 0 < s.samples.length := by omega
+  have hinc : strictInc (times s.samples) = true := (sorted_iff_strictInc _).1 hs
+  unfold applyDelay checked
+  rw [dif_pos hl]
+  simp only [hinc, if_true, hname, hidx, sub_zero, List.map_id', Bool.not_true, Bool.false_eq_true, if_false]
+  congr 1
+  cases s with
+  | mk samples mapping =>
+    simp only [TS.mk.injEq, and_true]
+    apply List.ext_getElem
+    · simp [resampleRows, times]
+    · intro i h1 h2'
+      simp only [List.getElem_zipWith, resampleRows, times, List.getElem_map]
+      have hrow : setCols cols (interpRow (selectCols cols samples) (by rw [selectCols_length]; exact hl)
+          samples[i].t).toList samples[i].row = samples[i].row := by
+        apply setCols_self
+        · simp
+        · intro j hj1 hj2
+          simp only [Vector.getElem_toList]
+          rw [interpRow_selectCols cols samples hl _ _ j hj1, interpRow_at_sample h2 hs i h2']
+          rfl
+      rw [hrow]
+
+/-- `apply_time_window` keeps exactly the samples with `min_t ≤ t ≤ max_t` (and the signal mapping). -/
+theorem window_times_in_range (s s' : TS K m) (hs : Sorted s.samples) (lo hi : K)
+    (h : applyTimeWindow s lo hi = .ok s') :
+    s'.mapping = s.mapping ∧ ∀ p, p ∈ s'.samples ↔ (p ∈ s.samples ∧ lo ≤ p.t ∧ p.t ≤ hi) := by
+  unfold applyTimeWindow checked windowCore at h
+  split at h
+  · split at h
+    · simp only at h
+      split at h
+      · cases h
+      · cases h
+        exact ⟨rfl, fun p => mem_window hs lo hi p⟩
+    · cases h
+  · cases h
+
 end Field
 
+-- non-vacuity: a named signal with in-range, unsorted column indices
+example : lookup [("a", [0]), ("b", [2, 1])] "b" = some [2, 1] ∧ toFin 3 [2, 1] = some [2, 1] := by
+  constructor <;> rfl
 -- non-vacuity of the hypotheses of the interpolation theorems
 example : Sorted [(⟨0, #v[1, 5]⟩ : Sample ℚ 2), ⟨1, #v[3, 2]⟩, ⟨4, #v[0, 0]⟩] := by
   simp [Sorted]
